@@ -1173,8 +1173,9 @@ func (app *App) serverErrorHandler(fctx *fasthttp.RequestCtx, err error) {
 	defer app.ReleaseCtx(c)
 
 	var (
-		errNetOP *net.OpError
-		netErr   net.Error
+		errNetOP   *net.OpError
+		netErr     net.Error
+		errTimeout interface{ Timeout() bool }
 	)
 
 	switch {
@@ -1188,7 +1189,9 @@ func (app *App) serverErrorHandler(fctx *fasthttp.RequestCtx, err error) {
 		err = ErrRequestEntityTooLarge
 	case errors.Is(err, fasthttp.ErrGetOnly):
 		err = ErrMethodNotAllowed
-	case strings.Contains(err.Error(), "timeout"):
+	case errors.As(err, &errTimeout) && errTimeout.Timeout():
+		// decided by the kind of error (fasthttp.ErrTimeout and the like), not by its text:
+		// the text of a parse error quotes the request bytes, which may contain "timeout"
 		err = ErrRequestTimeout
 	default:
 		err = NewError(StatusBadRequest, err.Error())
